@@ -19,9 +19,13 @@
 package c13
 
 import (
+	"encoding/json"
+	"errors"
 	"fmt"
+	"os"
 	"runtime/debug"
 	"strings"
+	"syscall"
 	"testing"
 	"time"
 	"unicode"
@@ -83,10 +87,25 @@ func clip(s string) string {
 	return fmt.Sprintf("%q", s)
 }
 
-// watchdogLimit converts a non-terminating call into a failure. The calls
-// below take microseconds on inputs of a few KiB; the limit is six orders of
-// magnitude above that, so it cannot fire on a terminating implementation.
-const watchdogLimit = 20 * time.Second
+// cpuBudget converts a non-terminating call into a failure. It is measured in
+// CPU time of this process (getrusage), not in wall time, so a busy machine
+// cannot make it fire. The generator bounds the cost of a terminating call
+// (SplitToSize re-measures the whole remaining text for every piece, i.e. it
+// is quadratic in len(text)/piece size) to well under a second of CPU.
+const cpuBudget = 15 * time.Second
+
+func cpuNow() time.Duration {
+	var ru syscall.Rusage
+	if err := syscall.Getrusage(syscall.RUSAGE_SELF, &ru); err != nil {
+		return 0
+	}
+	return time.Duration(ru.Utime.Nano() + ru.Stime.Nano())
+}
+
+// hangError marks a call that did not come back.
+type hangError struct{ msg string }
+
+func (e *hangError) Error() string { return e.msg }
 
 // guarded runs f and reports non-termination or a panic as an error.
 func guarded(what string, inputLen int, f func()) (err error) {
@@ -100,12 +119,38 @@ func guarded(what string, inputLen int, f func()) (err error) {
 		f()
 		done <- nil
 	}()
-	select {
-	case e := <-done:
-		return e
-	case <-time.After(watchdogLimit):
-		return fmt.Errorf("%s did not terminate within %v on a %d-byte input", what, watchdogLimit, inputLen)
+	start := cpuNow()
+	for {
+		select {
+		case e := <-done:
+			return e
+		case <-time.After(50 * time.Millisecond):
+			if used := cpuNow() - start; used > cpuBudget {
+				return &hangError{fmt.Sprintf("%s did not terminate within %v of CPU time on a %d-byte input", what, cpuBudget, inputLen)}
+			}
+		}
 	}
+}
+
+// dieOnHang ends the process at once when a call did not terminate: the
+// spinning goroutine cannot be killed and may allocate without bound, so
+// neither shrinking nor the remaining tests can run in this process. The
+// failing case is saved in the runtime's replay format first (same path and
+// layout as vr.Prop uses), so the driver reports it as the violation it is.
+// In replay mode the error is simply returned.
+func dieOnHang(check string, c any, err error) error {
+	var h *hangError
+	if !errors.As(err, &h) || os.Getenv("VERIF_REPLAY") != "" {
+		return err
+	}
+	if out := os.Getenv("VERIF_REPLAY_OUT"); out != "" {
+		raw, _ := json.MarshalIndent(c, "", " ")
+		b, _ := json.MarshalIndent(vr.ReplayFile{Property: vr.PropID, Check: check, Error: err.Error(), Case: raw}, "", " ")
+		_ = os.WriteFile(fmt.Sprintf("%s.%s.json", out, check), b, 0o644)
+	}
+	fmt.Printf("--- FAIL: property %s violated (%s): %v\n", vr.PropID, check, err)
+	os.Exit(1)
+	return err
 }
 
 // tabulaFrames keeps the stack lines that lie inside tabula.
@@ -274,7 +319,7 @@ type SplitCase struct {
 	Labels []string `json:"labels,omitempty"`
 }
 
-func checkSplit(c SplitCase) error {
+func checkSplitInner(c SplitCase) error {
 	if !utf8.ValidString(c.Text) {
 		return fmt.Errorf("generator bug: input is not valid UTF-8")
 	}
@@ -358,6 +403,25 @@ func genSize(t *rapid.T, bound bool) SizeSpec {
 	return s
 }
 
+// capCost shortens text (on a character boundary) so that len(text)^2 / piece size stays
+// below 2e7 byte visits and len(text) below 16 KiB: the cost bound behind cpuBudget.
+func capCost(text string, pieceBytes int) string {
+	if pieceBytes < 1 {
+		pieceBytes = 1
+	}
+	limit := 16 << 10
+	for limit > 64 && float64(limit)*float64(limit)/float64(pieceBytes) > 2e7 {
+		limit = limit * 3 / 4
+	}
+	if len(text) <= limit {
+		return text
+	}
+	for limit > 0 && !utf8.RuneStart(text[limit]) {
+		limit--
+	}
+	return text[:limit]
+}
+
 func ratioOf(tpc float64) float64 {
 	if tpc <= 0 {
 		return 0.25
@@ -397,6 +461,7 @@ func genSplit(t *rapid.T) SplitCase {
 		c.Text, classes = txt.Gen(t, "txt", cl, 5, 220)
 	}
 	cfg := c.Size.build()
+	c.Text = capCost(c.Text, approxMaxBytes(cfg))
 	c.Labels = append(c.Labels, "unit:"+unitNames[cfg.Max.Unit])
 	for _, cl := range classes {
 		c.Labels = append(c.Labels, "class:"+cl)
@@ -438,6 +503,8 @@ func metaSplit(c SplitCase) vr.Meta {
 	nt := len(c.Text) > approxMaxBytes(cfg) && (hasMultibyte(c.Text) || maxGap(c.Text) > 100)
 	return vr.Meta{FP: fmt.Sprintf("%s|%+v", c.Text, c.Size), NonTrivial: nt, Labels: c.Labels}
 }
+
+func checkSplit(c SplitCase) error { return dieOnHang("split", c, checkSplitInner(c)) }
 
 func init() { vr.Register("split", checkSplit) }
 
@@ -544,7 +611,7 @@ func checkApplied(what string, out []*rag.ChunkWithOverlap, own, titles []string
 	return nil
 }
 
-func checkOverlap(c OverlapCase) error {
+func checkOverlapInner(c OverlapCase) error {
 	cfg := c.Overlap.build()
 	for i, s := range c.Texts {
 		if !utf8.ValidString(s) {
@@ -653,6 +720,8 @@ func metaOverlap(c OverlapCase) vr.Meta {
 	return vr.Meta{FP: fmt.Sprintf("%q|%q|%+v", c.Texts, c.Titles, c.Overlap), NonTrivial: nt, Labels: c.Labels}
 }
 
+func checkOverlap(c OverlapCase) error { return dieOnHang("overlap", c, checkOverlapInner(c)) }
+
 func init() { vr.Register("overlap", checkOverlap) }
 
 func TestOverlap(t *testing.T) {
@@ -698,7 +767,7 @@ func (c LayoutCase) doc() *model.Document {
 	return doc
 }
 
-func checkLayout(c LayoutCase) error {
+func checkLayoutInner(c LayoutCase) error {
 	all := strings.Join(c.Paras, "\n\n")
 	if !utf8.ValidString(all) {
 		return fmt.Errorf("generator bug: input is not valid UTF-8")
@@ -733,11 +802,17 @@ func checkLayout(c LayoutCase) error {
 			return fmt.Errorf("Chunker.Chunk: chunk %d of %d is not valid UTF-8 (input is): %s", i, len(own), clip(p))
 		}
 	}
-	if got, want := squeeze(strings.Join(own, " ")), squeeze(all); got != want {
+	// the heading is normally carried by SectionTitle only; a section without any content may
+	// instead be emitted as a chunk holding the heading text (C12 accepts both) — that chunk is set aside
+	content := own
+	if c.Heading != "" && len(own) > 0 && strings.TrimSpace(own[0]) == c.Heading && squeeze(all) == "" {
+		content = own[1:]
+	}
+	if got, want := squeeze(strings.Join(content, " ")), squeeze(all); got != want {
 		return fmt.Errorf("Chunker.Chunk: non-white-space characters not conserved: %s", diffAt(got, want))
 	}
 	if inBoundDomain(sc, boundText) {
-		for i, p := range own {
+		for i, p := range content {
 			if n := utf8.RuneCountInString(strings.TrimSpace(p)); n > c.Max {
 				return fmt.Errorf("Chunker.Chunk: chunk %d of %d has %d runes (%d bytes) > MaxChunkSize %d although every paragraph has a space every 50 bytes at most: %s",
 					i, len(own), n, len(p), c.Max, clip(p))
@@ -850,6 +925,8 @@ func metaLayout(c LayoutCase) vr.Meta {
 	return vr.Meta{FP: fmt.Sprintf("%q|%q|%d|%d|%d|%v|%v", c.Heading, c.Paras, c.Max, c.Min, c.OverlapSize, c.OverlapSentences, c.SectionContext),
 		NonTrivial: nt, Labels: c.Labels}
 }
+
+func checkLayout(c LayoutCase) error { return dieOnHang("layout", c, checkLayoutInner(c)) }
 
 func init() { vr.Register("layout", checkLayout) }
 
